@@ -7,6 +7,7 @@ package main
 import (
 	"fmt"
 	"go/types"
+	"net"
 	"net/http"
 	"net/textproto"
 	"strconv"
@@ -522,6 +523,40 @@ func (e *Engine) installIntrinsics() {
 	in["fmt.Sprint"] = func(m *machine, _ *frame, fn *ssa.Function, args []value) value {
 		return strV{s: "<fmt.Sprint>"}
 	}
+	// strings.EqualFold: Unicode simple folding restricted to ASCII letters and the
+	// two non-ASCII code points that fold to ASCII letters (U+212A KELVIN SIGN ~ k,
+	// U+017F LONG S ~ s); any other non-ASCII rune is outside the model.
+	in["strings.EqualFold"] = func(m *machine, _ *frame, _ *ssa.Function, args []value) value {
+		a, b := args[0].(strV), args[1].(strV)
+		if a.IsConcrete() && b.IsConcrete() {
+			return m.ctx.Bool(strings.EqualFold(a.s, b.s))
+		}
+		ra, oka := m.foldRunes(a)
+		rb, okb := m.foldRunes(b)
+		if !oka || !okb {
+			m.unsupported("strings.EqualFold on non-ASCII input outside the model at %s", m.where())
+		}
+		if len(ra) != len(rb) {
+			return m.ctx.False
+		}
+		r := m.ctx.True
+		for i := range ra {
+			r = m.ctx.And(r, m.ctx.Eq(ra[i], rb[i]))
+		}
+		return r
+	}
+	in["net.SplitHostPort"] = func(m *machine, _ *frame, fn *ssa.Function, args []value) value {
+		s := args[0].(strV)
+		if !s.IsConcrete() {
+			m.unsupported("net.SplitHostPort on a symbolic string at %s", m.where())
+		}
+		h, p, err := net.SplitHostPort(s.s)
+		var ev value = iface{}
+		if err != nil {
+			ev = m.rtErr(err.Error())
+		}
+		return tuple{strV{s: h}, strV{s: p}, ev}
+	}
 	in["os.Getenv"] = func(m *machine, _ *frame, fn *ssa.Function, args []value) value {
 		return strV{}
 	}
@@ -571,6 +606,37 @@ func (m *machine) mkTime(inst *Term) value {
 func (m *machine) timeInstant(v value) *Term {
 	s := v.(structure)
 	return s[1].(*Term)
+}
+
+// foldRunes decodes s into case-folded runes (as 32-bit terms), forking on the
+// lead-byte class of symbolic bytes; ok is false for non-ASCII runes other
+// than U+212A and U+017F.
+func (m *machine) foldRunes(s strV) ([]*Term, bool) {
+	c := m.ctx
+	bs := m.strBytes(s)
+	var out []*Term
+	for i := 0; i < len(bs); {
+		b := bs[i]
+		if m.decide(c.ULt(b, c.BV(0x80, 8))) {
+			up := c.And(c.ULe(c.BV('A', 8), b), c.ULe(b, c.BV('Z', 8)))
+			f := c.Ite(up, c.Add(b, c.BV(32, 8)), b)
+			out = append(out, c.ZExt(f, 32))
+			i++
+			continue
+		}
+		if i+2 < len(bs) && m.decide(c.And(c.Eq(b, c.BV(0xe2, 8)), c.And(c.Eq(bs[i+1], c.BV(0x84, 8)), c.Eq(bs[i+2], c.BV(0xaa, 8))))) {
+			out = append(out, c.BV('k', 32)) // U+212A folds with K and k
+			i += 3
+			continue
+		}
+		if i+1 < len(bs) && m.decide(c.And(c.Eq(b, c.BV(0xc5, 8)), c.Eq(bs[i+1], c.BV(0xbf, 8)))) {
+			out = append(out, c.BV('s', 32)) // U+017F folds with S and s
+			i += 2
+			continue
+		}
+		return nil, false
+	}
+	return out, true
 }
 
 type ufCall struct {
